@@ -145,3 +145,37 @@ for _cn, _q in CLASSES.items():
     Contract(_q + '@keyword-string-route', target=_q, spec=_kw_str_spec(_cn), shapes=_kw_str_shapes(), props={'C15', 'C02'}, kind='public',
              note=f"{_cn}(hex=.., length=n) etc.: a stated length that disagrees with the value's length raises CreationError; "
                   "otherwise exactly the value's bits")
+
+
+# ---- keyword route for the float rows --------------------------------------------------------------------------------------
+def _kw_float_shapes():
+    out = []
+    for nm in ('float', 'floatbe', 'floatle', 'floatne'):
+        def build(S, interp, nm=nm):
+            return [], {nm: S.float('f'), 'length': S.int('n')}
+
+        def real(vals, nm=nm):
+            return [], {nm: vals['f'], 'length': vals['n']}
+
+        def gen(rng):
+            return {'f': rng.choice([0.0, -0.0, 1.5, -2.25, 65520.0, 1e39, -1e39, 1e300, float('inf'), rng.uniform(-100, 100)]),
+                    'n': rng.choice([16, 32, 64, 16, 32, 64, 0, 8, 24, 128, -32])}
+        out.append(Shape(nm, build, real, gen=gen))
+    return out
+
+
+def _kw_float_spec(clsname):
+    import sys as _s
+    from .floats import enc_float
+
+    def f(C, **kw):
+        n = kw.pop('length')
+        (name, v), = kw.items()
+        be = {'float': True, 'floatbe': True, 'floatle': False, 'floatne': _s.byteorder != 'little'}[name]
+        return mk_bits(C, C.cls(clsname), enc_float(C, v, n, be), pos=0)
+    return f
+
+
+for _cn, _q in CLASSES.items():
+    Contract(_q + '@keyword-float-route', target=_q, spec=_kw_float_spec(_cn), shapes=_kw_float_shapes(), props={'C02', 'C15', 'C18'}, kind='public',
+             note=f"{_cn}(float*=f, length=n): n must be 16, 32 or 64 (CreationError otherwise); the struct encoding in the row's byte order")
